@@ -15,7 +15,18 @@ SCHEMAS = ['json/athlete.json', 'json/combined_performance.json', 'json/competit
            'json/definitions/field_performance.json', 'json/definitions/horizontal_jump_performance.json',
            'json/definitions/jump_performance.json', 'json/definitions/throw_performance.json',
            'json/definitions/track_performance.json', 'json/definitions/vertical_jump_performance.json']
-VALIDATORS = [None, 'Draft3Validator', 'Draft4Validator', 'Draft6Validator', 'Draft7Validator']
+VALIDATORS = [None, 'Draft3Validator', 'Draft4Validator', 'Draft6Validator', 'Draft7Validator',
+              'Ext3', 'Ext4', 'Ext7']
+# Ext*: user-defined validator classes made with jsonschema.validators.extend() from the stock drafts
+# (they all carry the class name "Validator"); created once per process in prepare()
+EXT = {}
+
+
+def validator_class(jsonschema, name):
+    if name in EXT:
+        return EXT[name]
+    return getattr(jsonschema, name)
+
 MAIN = ['athlete', 'combined_performance', 'competition', 'event', 'performance']
 
 
@@ -60,7 +71,7 @@ def execute(athlib_utils, jsonschema, call):
         if call[0] == 'sv':
             kw = {}
             if call[3] is not None:
-                kw['validator'] = getattr(jsonschema, call[3])
+                kw['validator'] = validator_class(jsonschema, call[3])
             if call[4]:
                 kw['expect_failure'] = True
             v = athlib_utils.schema_valid(spell(call[1], call[2]), **kw)
@@ -281,6 +292,9 @@ def prepare():
     athlib = common.import_athlib()
     import athlib.utils as utils
     import jsonschema
+    if not EXT:
+        for n, base in (('Ext3', 'Draft3Validator'), ('Ext4', 'Draft4Validator'), ('Ext7', 'Draft7Validator')):
+            EXT[n] = jsonschema.validators.extend(getattr(jsonschema, base), {})
     SEAMS.install()
     return utils, jsonschema
 
